@@ -472,6 +472,20 @@ func famOrder(c *fw.Ctx, emit emitFn) {
 			rr := renum(rhs, &k)
 			emit(append(append([]gen.Stmt{}, init...), gen.Assign{T: []gen.Expr{tt}, Op: "=", X: rr}, obs), true)
 		}
+		// compound assignment to operand-bearing targets: the operands of the target are evaluated once
+		for _, t := range []gen.Expr{
+			gen.Index{X: arr, I: gen.L(0, gen.IntLit{V: 1})},
+			gen.Index{X: arr, I: gen.Bin{Op: "+", L: gen.L(0, gen.IntLit{V: 1}), R: gen.L(0, gen.IntLit{V: 1})}},
+			gen.Index{X: m, I: gen.L(0, gen.StrLit{V: "b"})},
+			gen.Sel{X: gen.Index{X: m, I: gen.L(0, gen.StrLit{V: "a"})}, N: "x"},
+		} {
+			for _, op := range []string{"+=", "*="} {
+				var k int64
+				tt := renum(t, &k)
+				rr := renum(rhs, &k)
+				emit(append(append([]gen.Stmt{}, init...), gen.Assign{T: []gen.Expr{tt}, Op: op, X: rr}, obs), true)
+			}
+		}
 		// destructuring assignment with operand-bearing targets
 		{
 			var k int64
